@@ -55,7 +55,7 @@ class NameSite:
 
     @property
     def sig(self) -> str:
-        return "|".join(self.literals)
+        return "|".join(dict.fromkeys(self.literals))      # each literal once, in order of first appearance
 
     def key(self):
         from ..report import short_fn
@@ -103,7 +103,11 @@ def literal_parts(expr, assigns, depth=0, seen=None):
             lits += literal_parts(f.value, assigns, depth, seen)
             for a in expr.args:
                 lits += literal_parts(a, assigns, depth, seen)
-        elif isinstance(f, ast.Name) and f.id in ("str", "sorted", "list"):
+        elif isinstance(f, ast.Name) and f.id in ("str", "sorted", "list", "tuple", "map", "reversed", "format"):
+            for a in expr.args:
+                lits += literal_parts(a, assigns, depth, seen)
+        elif isinstance(f, ast.Attribute) and f.attr == "format":
+            lits += literal_parts(f.value, assigns, depth, seen)
             for a in expr.args:
                 lits += literal_parts(a, assigns, depth, seen)
     elif isinstance(expr, ast.Name) and expr.id in assigns.get("@consts", {}):
@@ -117,6 +121,11 @@ def literal_parts(expr, assigns, depth=0, seen=None):
             lits += literal_parts(v, assigns, depth + 1, seen)
     elif isinstance(expr, ast.IfExp):
         lits += literal_parts(expr.body, assigns, depth, seen) + literal_parts(expr.orelse, assigns, depth, seen)
+    elif isinstance(expr, (ast.ListComp, ast.GeneratorExp, ast.SetComp)):
+        lits += literal_parts(expr.elt, assigns, depth, seen)      # the pieces joined are what the comprehension yields
+    elif isinstance(expr, (ast.List, ast.Tuple, ast.Set)):
+        for e in expr.elts:
+            lits += literal_parts(e.value if isinstance(e, ast.Starred) else e, assigns, depth, seen)
     return lits
 
 
@@ -660,6 +669,13 @@ def _find_function(prog, fshort):
     for fq, fi in prog.functions.items():
         if short_fn(fq) == fshort and not fq.endswith("#setter"):
             return fi
+    # a private helper that left its class (mixin, module level): the unique function of that name in the module
+    head, _, meth = fshort.rpartition(".")
+    mods = {c.module for c in prog.classes.values() if c.name == head} | {m for m in prog.modules if m.rsplit(".", 1)[-1] == head}
+    for mod in sorted(mods):
+        fi = prog.relocated(mod, meth)
+        if fi is not None:
+            return fi
     return None
 
 
@@ -799,7 +815,9 @@ def counter_suffix_ok(prog, s: NameSite):
     if blk is None:
         return False, "cannot locate the renaming statement"
     # a monotone iterator (`numbers = count()` ... `next(numbers)`) advances by itself at every use
-    for c in ast.walk(s.expr):
+    from .flow import inline_locals
+    exprs = inline_locals(fn, s.expr)
+    for c in [x for e in exprs for x in ast.walk(e)]:
         if isinstance(c, ast.Call) and getattr(c.func, "id", "") == "next" and c.args and isinstance(c.args[0], ast.Name):
             nm = c.args[0].id
             makers = [a for a in ast.walk(fn) if isinstance(a, ast.Assign) and any(isinstance(t, ast.Name) and t.id == nm
@@ -807,7 +825,7 @@ def counter_suffix_ok(prog, s: NameSite):
             if len(makers) == 1 and isinstance(makers[0].value, ast.Call) and \
                     ast.unparse(makers[0].value.func).split(".")[-1] == "count":
                 return True, ""
-    ctr = [x.id for x in ast.walk(s.expr) if isinstance(x, ast.Name) and x.id not in ("str",) and not x.id.isupper()
+    ctr = [x.id for e in exprs for x in ast.walk(e) if isinstance(x, ast.Name) and x.id not in ("str",) and not x.id.isupper()
            and x.id != "variable"]
     for c in ctr:
         if any(isinstance(st, ast.AugAssign) and isinstance(st.target, ast.Name) and st.target.id == c
